@@ -434,6 +434,7 @@ def project_(pid, t, meta):
         n = size_n(t)
         for k, v in t.items():
             if k.startswith("rt."): out[k] = v
+            elif k == "size_trait_same" or (k.startswith("w") and k.endswith(".trait_same")): out[k] = v
             elif k.startswith("w") and k.endswith(".res"): out[k] = cls(v)
             elif k.startswith("w") and k.endswith(".buf") and n is not None and t.get(k[:-4] + ".res") == f"ok:{n}" and v != "-":
                 out[k] = v[:2 * n]
@@ -443,7 +444,8 @@ def project_(pid, t, meta):
         if "size" in t: out["size"] = t["size"] if not t["size"].startswith("err:") else "err"
         for k, v in t.items():
             if k.endswith(".res") and k.startswith("w"): out[k] = v if not v.startswith("err:") or "OutputTooSmall" in v else "err"
-            elif k.endswith(".rewrite_same") and k.startswith("w"): out[k] = v
+            elif k.endswith((".rewrite_same", ".trait_same")) and k.startswith("w"): out[k] = v
+            elif k == "size_trait_same": out[k] = v
         return out
     if pid in ("C07", "C14", "C19", "C20", "C17"):
         if op != "build":
@@ -464,7 +466,9 @@ def project_(pid, t, meta):
                     out[k] = v[:2 * n] if v != "-" else v
             elif k.startswith("w") and k.endswith(".res"):
                 out[k] = cls(v) if pid in ("C07", "C17") else v
-            elif k.startswith("w") and k.endswith(".rewrite_same"):
+            elif k.startswith("w") and k.endswith((".rewrite_same", ".trait_same")):
+                out[k] = v
+            elif k == "size_trait_same":
                 out[k] = v
             elif k == "size":
                 out[k] = cls(v) if pid in ("C07", "C17") else v
@@ -500,9 +504,9 @@ def project_(pid, t, meta):
             elif bk in ("res", "variant", "length", "type", "count", "version", "padding"): out[k] = v
         return out
     if pid == "C12":
-        if not (op == "parse" and meta.get("kind") == "packet"): return out
+        if not (op == "parse" and meta.get("kind") in ("packet", "unknown")): return out
         for k, v in t.items():
-            if k in ("res", "variant", "is_unknown", "data") or k.startswith(("typed.", "conv.", "conv_same.", "convo.", "convo_same.", "as.", "aso.")): out[k] = v
+            if k in ("res", "variant", "is_unknown", "data") or k.startswith(("typed.", "conv.", "conv_same.", "convo.", "convo_same.", "as.", "aso.", "pfrom.")): out[k] = v
         return out
     if pid == "C13":
         if op != "pad": return out
